@@ -944,7 +944,7 @@ func c14Compose(c *Ctx) {
 
 func runC15(c *Ctx) {
 	// "the same rule the configuration enforces for static routes": overlapping or repeated static routes are rejected
-	sharedRejections(c, "R-C15-6", "routes-overlap")
+	sharedRejections(c, "R-C15-6", "routes-overlap", "routes-wildcard-once")
 	listingErrors(c, "R-C15-5", [][3]string{{"internal/plugin", "Route", "current"}, {"internal/plugin", "Route", "Apply"}, {"internal/system", "addresser", "LoopbackRoutes"}, {"internal/system", "addresser", "routesByIndex"}})
 	cur := c.needMethod("R-C15-1", "internal/plugin", "Route", "current")
 	if cur == nil {
